@@ -321,6 +321,24 @@ theorem stage_succeeds (t : RawTree) (hT : TreeWF t) (hpop : Populated t) (lk : 
       (∀ e ∈ out.reported, ReportedEntry t c e.1 e.2) :=
   stage_ok t (treeOK_of_wf t hT) hpop lk R Q m c h
 
+/-- `drop_level`: the marker stage of a run that drops level `l` is the marker
+stage on the reduced taxonomy with the SAME table (keys of the dropped level
+stay in the table as orphans; by `validated_table` and
+`overlap_error_unreachable` they are neither read nor able to fail the run);
+a level that is not in the hierarchy is ignored. -/
+theorem drop_level_stage (t : RawTree) (lk : Lookup) (R Q : List Gene) (m : Nat) (l : Level)
+    (flatten : Bool) :
+    (t.hierarchy.contains l = false →
+      stage t lk R Q m (some l) flatten = stage t lk R Q m none flatten) ∧
+    (∀ t', t.hierarchy.contains l = true → t.dropLevel l = .ok t' →
+      stage t lk R Q m (some l) flatten = stage t' lk R Q m none flatten) := by
+  constructor
+  · intro h
+    simp only [stage, h, Bool.false_eq_true, if_false]
+  · intro t' h hd
+    simp only [stage, h, if_true, hd]
+
+
 /-- the hypothesis `TreeWF` of the theorems above is what a validated taxonomy
 is: accepted by `validate_taxonomy_tree` (model `RawTree.validate`), level
 names distinct, node names of each level distinct (they are dict keys). -/
